@@ -24,6 +24,7 @@ sys.path.insert(0, os.path.join(V.VERIF, "translator"))
 sys.path.insert(0, os.path.join(V.VERIF, "gen"))
 import C18_docs as G  # noqa
 import c18_init as TI  # noqa
+import c18_janitor as TJ  # noqa
 
 APIS = ["sax2", "sax", "dom", "ls"]
 NESTED_DECL = b"<!ELEMENT r (h?, (a | b)*, c?)>"
@@ -226,6 +227,37 @@ def open_content_model(d):
     return False
 
 
+def mixed_star_class(d):
+    """predicate of finding C18-DTD-MIXED-HANDLER-LEAK: some entity text (PE literal, external entity / DTD, internal subset between
+    its literals) has an <!ELEMENT declaration with a MIXED content model with children, `(#PCDATA | name ...)`, whose closing
+    parenthesis is not followed by `*` in that same text (the text ends there, a PE reference follows, or the star is simply
+    missing), or that has a `*` inside the group: DTDScanner::scanMixed then reports ExpectedAsterisk / NoRepInMixed while it
+    holds the nodes built so far in a raw pointer.  With setExitOnFirstFatalError(false) the error does not throw by itself, and an
+    exception thrown by the application's error handler at that callback leaves the nodes behind."""
+    import re
+    texts = [v.decode("latin-1") for v in d.get("ext", {}).values()]
+    doc = d["doc"].decode("latin-1")
+    texts += re.findall(r'<!ENTITY\s+%\s+\S+\s+"([^"]*)"', doc) + re.findall(r"<!ENTITY\s+%\s+\S+\s+'([^']*)'", doc)
+    m = re.search(r"<!DOCTYPE[^\[>]*\[(.*)\]\s*>", doc, re.S)
+    if m:
+        texts.append(re.sub(r'"[^"]*"|\'[^\']*\'', "Q", m.group(1)))
+    elif "<!DOCTYPE" in doc and "[" in doc:
+        texts.append(re.sub(r'"[^"]*"|\'[^\']*\'', "Q", doc[doc.index("["):]))
+    for t in texts:
+        t = t.replace("&#37;", "%").replace("&#34;", '"')
+        for mm in re.finditer(r"<!ELEMENT\s+\S+\s*\(\s*#PCDATA", t):
+            rest = t[mm.end():]
+            close = rest.find(")")
+            if close < 0:
+                continue                      # the group is open at the end of the text: class of C18-DTD-CONTENTSPEC-EOE-LEAK
+            inner = rest[:close]
+            if "*" in inner:
+                return True                   # NoRepInMixed
+            if "|" in inner and not rest[close + 1:close + 2] == "*":
+                return True                   # ExpectedAsterisk
+    return False
+
+
 def gen_round3(ctx, thorough):
     """(a) error recovery of the reader stack in DTDs x exitOnFirstFatalError x DTD-reading scanners x APIs, (b) DOM heap growth
     paths x document lifetimes, (c) grammar ownership cross product.  returns list of (case-id, kind, line)"""
@@ -240,6 +272,7 @@ def gen_round3(ctx, thorough):
     # (a)
     n = 0
     skipped = 0
+    mixed_skipped = [0]
     for i, d in enumerate(G.pe_recovery_docs(rng, 400 if thorough else 40)):
         if ctx.find_known("C18-DTD-CONTENTSPEC-EOE-LEAK") and open_content_model(d):
             skipped += 1          # replayed by the literal witness of the known finding instead
@@ -249,6 +282,11 @@ def gen_round3(ctx, thorough):
                 for api in (APIS if thorough else [APIS[n % 4]]):
                     kv = dict(api=api, scn=scn, xff=xff, val=n % 3, ns=(n // 3) % 2, exc=n % 4, mode="reuse" if n % 2 else "fresh",
                               thr=1, prog=1 if (thorough or n % 3 == 0) else 0, pool=1 if n % 7 == 0 and scn != "DG" else 0)
+                    # class of finding C18-DTD-MIXED-HANDLER-LEAK (see mixed_star_class): while it is listed as known, these documents
+                    # get no handler-exception endings under setExitOnFirstFatalError(false); natural and progressive endings stay
+                    if xff == 0 and ctx.find_known("C18-DTD-MIXED-HANDLER-LEAK") and mixed_star_class(d):
+                        kv["thr"] = 0
+                        mixed_skipped[0] += 1
                     add("r%d%s-%s-x%d%s" % (n, api, d["tag"], xff, scn), "pe-recovery/" + api, d, kv)
                     n += 1
     # (b)
@@ -654,6 +692,29 @@ def witnesses(ctx, xh, xm, dflt):
             ctx.violation("C18-DTD-CONTENTSPEC-EOE-LEAK", {"what": txt, "verdict": leaks[0], "request": lines})
     else:
         report_bad(ctx, bad, lines, "discipline violated in the EOE content-spec witness")
+    # C18-DTD-MIXED-HANDLER-LEAK: scanMixed reports ExpectedAsterisk (the PE ends right behind the closing parenthesis of a mixed
+    # model) with setExitOnFirstFatalError(false); the error handler throws at that callback
+    mdoc = (b'<?xml version="1.0"?><!DOCTYPE r [<!ENTITY % p "<!ELEMENT a (#PCDATA | b)"><!ELEMENT r (a)*>%p;*><!ELEMENT b EMPTY>]><r><a>t</a></r>')
+    lines = ["init w user=1", "case wMIX api=sax2 exc=1 mode=fresh ns=1 pool=0 sch=0 scn=IG val=0 xff=0 thr=1 prog=0 doc=%s" % mdoc.hex(), "term w"]
+    rc1, rc2, o, err = run_pipeline(xh, xm, lines, "wMIX")
+    ctx.count()
+    st = {}
+    verdicts, bad = judge(ctx, o, lines, "wMIX", st)
+    leaks = [ln for lab, ln in bad if ln.split()[2] == "outstanding" and lab.startswith("wMIX.k")]
+    sizes_ok = all(all(int(b.split(":")[1]) in (72, 80) or int(b.split(":")[1]) <= 32 for b in ln.split()[4].split(",")) for ln in leaks)
+    if rc1 != 0:
+        ctx.violation("harness-crash", {"what": "mixed-content witness crashed", "stderr": err[-1000:], "request": lines})
+    elif leaks and len(leaks) == len(bad) and sizes_ok:
+        txt = ("DTDScanner::scanMixed: with setExitOnFirstFatalError(false) the error ExpectedAsterisk / NoRepInMixed is reported while the "
+               "ContentSpecNode tree built so far is held in a raw pointer; an exception thrown by the application's error handler at "
+               "that callback leaves the tree and its QNames outstanding after the parser is destroyed (`%s`); repair: "
+               "fixes/C18-dtd-mixed-handler-exception-leak.patch" % " ".join(leaks[0].split()[1:5]))
+        if ctx.find_known("C18-DTD-MIXED-HANDLER-LEAK"):
+            ctx.known_finding("C18-DTD-MIXED-HANDLER-LEAK", txt)
+        else:
+            ctx.violation("C18-DTD-MIXED-HANDLER-LEAK", {"what": txt, "verdict": leaks[0], "request": lines})
+    else:
+        report_bad(ctx, bad, lines, "discipline violated in the mixed-content witness")
     # C18-XPATH-EXPR-MANAGER: DOMXPathExpressionImpl copies an expression that does not start with '/' with the GLOBAL manager
     # and releases it to the document's manager
     xdoc = b'<r><a x="1">t</a><a>u</a></r>'
@@ -770,6 +831,174 @@ def report_bad(ctx, bad, session_lines, what, stacks=None):
         ctx.violation("discipline", payload)
 
 
+def guard_cases(ctx, thorough):
+    """requests for the scope-guard / adopting-container correspondences: list of (id, harness line, model line or None, kind)"""
+    import itertools
+    rng = ctx.rng
+    out = []
+    n = 0
+    # (a) a temporary under Janitor<T> / ArrayJanitor<T>: EVERY sequence of {call, reset, release} up to length 4 (5 in thorough)
+    #     x EVERY throw choice, both janitor kinds; plus random longer sequences
+    seqs = [list(t) for L in range(0, 6 if thorough else 5) for t in itertools.product("crl", repeat=L)]
+    for _ in range(400 if thorough else 60):
+        seqs.append([rng.choice("ccrl") for _ in range(rng.randrange(5, 12))])
+    for ops in seqs:
+        ncalls = ops.count("c")
+        for kind in "JA":
+            for k in [-1] + list(range(ncalls)):
+                cid = "j%d" % n
+                n += 1
+                arg = "kind=%s k=%d ops=%s" % (kind, k, ",".join(ops))
+                out.append((cid, "jan %s %s" % (cid, arg), "mjan %s %s" % (cid, arg), "jan/" + kind))
+    # (b) RefVectorOf<T>(max, adopt): operation histories with indices around the current size (bad indices included)
+    for i in range(1200 if thorough else 260):
+        adopt = i % 2
+        mx = [0, 1, 2, 4, 9][i % 5]
+        ops = []
+        size = 0
+        for _ in range(rng.randrange(0, 16)):
+            r = rng.random()
+            ix = max(0, size + rng.choice([-2, -1, -1, 0, 0, 1])) if rng.random() < 0.6 else rng.randrange(0, size + 2)
+            if r < 0.35:
+                ops.append("a"); size += 1
+            elif r < 0.47:
+                ops.append("s%d" % ix)
+            elif r < 0.6:
+                ops.append("i%d" % ix); size += 1 if ix <= size else 0
+            elif r < 0.72:
+                ops.append("o%d" % ix); size -= 1 if ix < size else 0
+            elif r < 0.84:
+                ops.append("r%d" % ix); size -= 1 if ix < size else 0
+            elif r < 0.94:
+                ops.append("l"); size -= 1 if size else 0
+            else:
+                ops.append("x"); size = 0
+        cid = "v%d" % i
+        arg = "adopt=%d max=%d ops=%s" % (adopt, mx, ",".join(ops))
+        out.append((cid, "rvec %s %s" % (cid, arg), "mrvec %s %s" % (cid, arg), "rvec/adopt%d" % adopt))
+    # (c) guarded constructors with arguments that make the body throw at different places: every prefix of valid texts,
+    #     damaged characters, empty strings
+    def prefixes(t, step=1):
+        return [t[:j] for j in range(0, len(t) + 1, step)]
+    urls = prefixes("http://user:pw@host.example:8080/a/b/../c.xml?q=1#frag") + ["http://h:xx/", "http://h:99999999999/", "zz://h/p", "file:///tmp/x",
+            "ftp://u@h/f", "http:/one-slash", "//h/p", "/abs/path", "rel/path?q", "#f", "http://[::1]/", "http://h/%zz", "http://h:/p", ":", "http://"]
+    uris = prefixes("http://user@host.example:8080/a/b;p?q=1#frag") + ["urn:isbn:0", "mailto:a@b", "http://[1080::8:800:200C:417A]/p", "http://[bad/p", "1http://h",
+            "http://h:port/", "http://h/%2", "http://h/^", "a:b#c#d", "?q", "//auth", "http://a b/", "file:///c|/x", "http://h/p?%", ""]
+    rexs = prefixes("(a|b)*[c-f&&[^d]]{2,3}\\p{L}+(?=x)\\d\\1") + ["a{2,1}", "[z-a]", "\\p{Nope}", "(?<!a)b", "a**", "(?i)abc", "[[:alpha:]]", "\\", "(?", "a{", "a{1", "a{1,",
+            "[a-", "(a)(b)\\3", ".*?x", "\\c", "[\\", "(?#c)a", "(?:a|)", "\\x{110000}"]
+    decs = ["12.50", "-0.0", "+1", "1e5", "abc", "", "--1", "1.2.3", ".", "-.5", "5.", " 12 ", "1 2", "00012.3400", "+", "9" * 60 + "." + "1" * 40]
+    toks = [("a b  c", " "), ("", " "), ("abc", ""), (",a,,b,", ","), ("   ", " "), ("one", "xyz")]
+    qns = [("p:l", "q:m"), ("nocolon", "x:y"), (":l", "p:"), ("", ""), ("a:b:c", "z"), ("p:" + "l" * 300, "s")]
+    k = 0
+
+    def add(cls, a, b=""):
+        nonlocal k
+        cid = "k%d" % k
+        k += 1
+        out.append((cid, "ctor %s cls=%s arg=%s arg2=%s" % (cid, cls, a.encode().hex() or "-", b.encode().hex() or "-"), None, "ctor/" + cls))
+    sub = (lambda l, m: l) if thorough else (lambda l, m: [x for j, x in enumerate(l) if j % m == 0 or j >= len(l) - 16])
+    for u in sub(urls, 2):
+        add("url", u)
+    for u in sub(urls, 3):
+        add("urlrel", u, "http://base.example/d/e/f.xml")
+        add("urlbase", u, "http://base.example:81/d/e/f.xml?bq#bf")
+        add("urlset", u, rng.choice(["http://base.example/x/y", "", "nobase"]))
+    for u in sub(uris, 2):
+        add("uri", u)
+    for u in sub(uris, 3):
+        add("urirel", u, "http://base.example/d/e/f?bq")
+    for r in sub(rexs, 2):
+        add("regex", r, rng.choice(["", "i", "x", "is", "F", "H", "zz"]))
+    for d in decs:
+        add("bigdec", d)
+    for a, b in toks:
+        add("tok", a, b)
+    for a, b in qns:
+        add("qname", a, b)
+    return out
+
+
+def guards_and_containers(ctx, xh, xm, jgen, thorough):
+    """scope guards (Janitor.c) and adopting containers (RefVectorOf) against their models; guarded constructors with failing
+    arguments judged by the monitor; the generated constructor obligations evaluated by the extracted model"""
+    t = time.time()
+    cases = guard_cases(ctx, thorough)
+    lines = ["init m0 user=1"] + [h for _, h, _, _ in cases] + ["term m0"]
+    rc1, rc2, o, err = run_pipeline(xh, xm, lines, "guards")
+    if rc1 != 0 or rc2 != 0:
+        # the request in flight is the last "req" line
+        last = [ln for ln in o if ln.startswith("req ")]
+        cid = last[-1].split()[1] if last else None
+        req = [ln for c, ln, _, _ in cases if c == cid]
+        ctx.violation("harness-crash", {"what": "the library crashed the harness in the scope-guard / container session (a double delete or a "
+                                                "use of released memory ends like this)", "stderr": err[-1500:],
+                                        "request": ["init m0 user=1"] + req + ["term m0"]}, no_input=not req)
+        return
+    st = {}
+    verdicts, bad = judge(ctx, o, lines, "guards", st)
+    report_bad(ctx, bad, lines, "discipline violated by a scope guard / adopting container / guarded constructor", st.get("stacks"))
+    impl = {}
+    for ln in o:
+        if ln.startswith("x "):
+            a = ln.split(" ", 2)
+            impl[a[1]] = a[2]
+    mlines = [m for _, _, m, _ in cases if m]
+    pm = subprocess.run([xm], input=("\n".join(mlines) + "\nmjsites all\n").encode(), stdout=subprocess.PIPE, timeout=900)
+    model = {}
+    sites = {}
+    for ln in pm.stdout.decode().splitlines():
+        a = ln.split(" ", 2)
+        if ln.startswith("x "):
+            model[a[1]] = a[2]
+        elif ln.startswith("mv ") and a[2] != "ok":
+            ctx.violation("model", {"what": "the Janitor model's own trace is rejected by the monitor (T18_janitor_local would be false)",
+                                    "line": ln}, no_input=True)
+        elif ln.startswith("js "):
+            sites[int(a[1])] = a[2]
+    dist = {}
+    ndiv = 0
+    for cid, hline, mline, kind in cases:
+        dist[kind] = dist.get(kind, 0) + 1
+        ctx.distinct(hline.split(" ", 2)[2])
+        if mline is None:
+            continue
+        ctx.count()
+        if cid not in impl or cid not in model:
+            ctx.violation("correspondence", {"what": "missing answer", "case": cid, "request": ["init m0 user=1", hline, "term m0"]}, no_input=True)
+            continue
+        if impl[cid] != model[cid]:
+            ndiv += 1
+            if ndiv > 4:
+                continue
+            v = verdicts.get(cid + "." + hline.split()[0])
+            spec_bad = bool(v) and v.split()[2] != "ok"
+            # Spec oracle of the container: what it deleted must be distinct objects it was given and must not overlap what it handed back
+            if hline.startswith("rvec"):
+                f = dict(x.split("=") for x in impl[cid].split())
+                d = [x for x in f["del"].split(",") if x != "-"]
+                if len(set(d)) != len(d) or ("adopt=0" in hline and d):
+                    spec_bad = True
+            ctx.violation("divergence" if spec_bad else "correspondence",
+                          {"what": "%s: implementation differs from the model%s" % (kind, " and violates the discipline" if spec_bad else
+                                                                                    " (events / deletions / array requests)"),
+                           "impl": impl[cid], "model": model[cid], "request": ["init m0 user=1", hline, "term m0"]})
+    # generated constructor obligations: name the sites whose obligation fails and the exit the model shows to be wrong
+    recs = jgen["sites"]
+    failing = []
+    for i, r in enumerate(recs):
+        txt = sites.get(i, "missing")
+        if " ok=1" not in " " + txt or "all-exits-ok" not in txt:
+            failing.append({"site": "%s %s::%s#%d" % (r["file"], r["cls"], r["fn"], r["ordinal"]), "model": txt,
+                            "assigned": r["allocated"], "guard_releases": r["released"], "destructor_releases": r["dtor"],
+                            "release_last": r["release_last"], "work_after_release": r["unguarded_work"]})
+    bad_shapes = [k for k, v in jgen["shapes"].items() if not v]
+    ctx.coverage["input_distribution"]["guards_and_containers"] = dist
+    ctx.coverage["guarded_constructor_sites"] = len(recs)
+    ctx.note("guards/containers: %d requests, %d divergences, %d constructor sites (%d failing), outcomes %s, %.1fs" % (
+        len(cases), ndiv, len(recs), len(failing), {k: v for k, v in st.get("outcomes", {}).items()}, time.time() - t))
+    return failing, bad_shapes
+
+
 def run(ctx):
     t0 = time.time()
     ctx.coverage["trusted_base"] = list(V.GLOBAL_TRUSTED_BASE) + [
@@ -786,6 +1015,12 @@ def run(ctx):
         ctx.note("translator failed: %r" % (e,))
         ctx.violation("translator", {"what": "translator can no longer read DOM heap constants / initialiser lists",
                                      "error": repr(e)}, no_input=True)
+        return
+    try:
+        jgen = TJ.generate(V.REPO, os.path.join(V.COQ, "theories", "Gen"))
+    except Exception as e:
+        ctx.note("translator failed: %r" % (e,))
+        ctx.violation("translator", {"what": "translator can no longer read the guarded constructors / Janitor.c", "error": repr(e)}, no_input=True)
         return
     ctx.coverage["terminate_resets_dom_heap"] = bool(consts["init"]["dom_reset"])
     ctx.coverage["arena_block_fits_request"] = bool(consts["heap"]["shape"]["block_fits_request"])
@@ -832,6 +1067,16 @@ def run(ctx):
                                                  "model": models, "request": lines})
                 elif impl and "OUT" in impl[0]:
                     ctx.violation("arena", {"what": "replayed request: region outside its block", "impl": impl, "request": lines})
+            if a[0] in ("jan", "rvec"):
+                mreq = "m" + ln + "\n"
+                mo = subprocess.run([xm], input=mreq.encode(), stdout=subprocess.PIPE, timeout=60).stdout.decode().splitlines()
+                impl = [x.split(" ", 2)[2] for x in o if x.startswith("x %s " % a[1])]
+                models = [x.split(" ", 2)[2] for x in mo if x.startswith("x ")]
+                print("impl : %s" % impl)
+                print("model: %s" % models)
+                if impl and models and impl[0] != models[0]:
+                    ctx.violation("divergence", {"what": "replayed request: implementation differs from the model", "impl": impl,
+                                                 "model": models, "request": lines})
         for ln in o:
             if ln.startswith("r ") and "DIFFERENT" in ln:
                 ctx.violation("replay", {"what": "replayed request: reused parser differs from a fresh one", "line": ln, "request": lines})
@@ -1004,12 +1249,21 @@ def run(ctx):
     lifecycle(ctx, xh, xm, dflt, 120 if thorough else 18)
     ctx.note("lifecycle: %.1fs" % (time.time() - t2))
 
+    # ---- 3b. scope guards, adopting containers, guarded constructors --------------------------------
+    gres = guards_and_containers(ctx, xh, xm, jgen, thorough)
+
     # ---- 4. witnesses of the known findings (each in its own process) -------------------------------
     witnesses(ctx, xh, xm, dflt)
 
     if not consts["init"].get("orphan_shape_ok", True) and not ctx.violations:
         ctx.violation("translator", {"what": "GrammarResolver::orphanGrammar no longer has the modelled shape (a grammar handed out must leave "
                                              "its owner) and the exploration found no failing input"}, no_input=True)
+    if gres and (gres[0] or gres[1]) and not ctx.violations:
+        ctx.violation("guard-obligation", {"what": "a constructor that arms JanitorMemFunCall no longer satisfies the obligation of "
+                                                   "T18_ctor_guard_obligations (every member it assigns is released by the guard function and by "
+                                                   "the destructor, cleanup.release() last) or Janitor.c lost a modelled statement; the model shows "
+                                                   "the exit that leaks / releases twice, the exploration found no input that takes it",
+                                           "sites": gres[0][:6], "janitor_shapes_lost": gres[1]}, no_input=True)
     if proof_broken and not ctx.violations:
         ctx.violation("obligation", {"what": "Coq obligation no longer checks and the exploration found no failing input",
                                      "failed": failed, "output": out[-3000:]}, no_input=True)
